@@ -550,10 +550,10 @@ func extractSuffixAndAnnotations(component string, propertyComponent bool, input
 			suffix = strippedInput[len(component):pos]
 		}
 
-		// Replace annotations
-		extractedContent := strings.ReplaceAll(strippedInput, res, "")
-		// Replace suffices
-		extractedContent = strings.ReplaceAll(extractedContent, suffix, "")
+		// Replace annotations (only the leading occurrence, i.e., the one in the component header)
+		extractedContent := strings.Replace(strippedInput, res, "", 1)
+		// Replace suffices (only the leading occurrence, i.e., the one in the component header)
+		extractedContent = strings.Replace(extractedContent, suffix, "", 1)
 		Println("Extracted content:", extractedContent)
 		// Return suffix and annotations
 		return suffix, res, extractedContent, tree.ParsingError{ErrorCode: tree.PARSING_NO_ERROR}
